@@ -9,10 +9,11 @@ from .symex import Exec
 from .npmodel import NpMixin
 from .lazy import LazyMixin
 from .glue import GlueMixin
+from .frame import FrameMixin
 from .stmts import NORMAL, RETURN, RAISE
 
 
-class Engine(GlueMixin, LazyMixin, NpMixin, Exec):
+class Engine(FrameMixin, GlueMixin, LazyMixin, NpMixin, Exec):
     pass
 
 
